@@ -131,6 +131,13 @@ def segy_source(draw, geom="regular", max_dim=12, max_ns=40, fields=True, allow_
     if geom in ("regular", "irregular"):
         if dims is not None:
             d["n_il"], d["n_xl"] = dims
+        elif geom == "regular" and draw(st.integers(0, 15)) == 11:
+            # more than 256 (or 1024) lines on one axis, a handful on the other: counts pass the places where an
+            # 8- or 10-bit quantity would wrap, the trace count stays small
+            many = draw(st.sampled_from([256, 256, 1024])) + draw(st.integers(1, 40))
+            few = draw(st.integers(2, 3))
+            d["n_il"], d["n_xl"] = (many, few) if draw(st.booleans()) else (few, many)
+            d["ns"] = min(d["ns"], 6)
         elif draw(st.integers(0, 7)) == 0:
             # a grid of 128*k traces: every footer array is then a whole number of 512-byte pages
             d["n_il"], d["n_xl"] = draw(st.sampled_from([(8, 16), (16, 8), (4, 32), (32, 4), (2, 64), (64, 2), (16, 16)]))
@@ -155,8 +162,9 @@ def segy_source(draw, geom="regular", max_dim=12, max_ns=40, fields=True, allow_
             elif draw(st.integers(0, 5)) == 0:
                 # six- and seven-digit line numbering (labels of 1e5 .. 4e6, where a tolerance-based or float32
                 # label lookup starts to confuse neighbouring lines)
-                d["il"] = [draw(st.integers(100_000, 4_000_000)), d["il"][1]]
-                d["xl"] = [draw(st.integers(100_000, 4_000_000)), d["xl"][1]]
+                big = st.one_of(st.integers(100_000, 4_000_000), st.integers(2 ** 24 + 1, 2 ** 31 - 100_000))   # (beyond 2^24 float32 is no longer exact)
+                d["il"] = [draw(big), d["il"][1]]
+                d["xl"] = [draw(big), d["xl"][1]]
             corner0 = draw(st.integers(0, 7)) == 0
             if dims is None and not corner0 and draw(st.integers(0, 7)) == 0:
                 # more than 128 grid cells, at most 128 traces: a footer array (4 bytes per grid cell) and
